@@ -8,6 +8,13 @@ PLANS = {}
 # ------------------------------------------------------------------------------------------------
 # C20 project origins
 
+def model_is_spec(s, describe):
+    """for streams whose model output IS the property's right-hand side (the documented rule evaluated on the case):
+    a disagreement is a violation on the implementation, with that case as the replay"""
+    for (i, c, obs, mo) in s.disagreements:
+        if c: s.oracle_failures.append((i, c, obs, describe(c, obs, mo)))
+    return s
+
 def c20_streams(ctx):
     n = 4000 if ctx["thorough"] else 600
     def classify(c, obs):
@@ -20,6 +27,7 @@ def c20_streams(ctx):
                       nontrivial=lambda c, obs: "origins=|" not in obs, classify=classify)
     s.note = ("on-disk chains of 1-4 directories; the first 106 cases place each of the 53 recognised markers alone, once with the right "
               "node type and once with the wrong one; then random subsets of markers/decoys at random levels; real project_origins::origins/types")
+    model_is_spec(s, lambda c, obs, mo: f"origins()/types() returned `{obs[:300]}`, the marked members of the chain / the documented markers present are `{mo[:300]}`")
     return [s]
 
 PLANS["C20"] = dict(
@@ -115,8 +123,9 @@ def c17_streams(ctx):
     return [s]
 
 PLANS["C17"] = dict(
+    translate=True,
     modules=["Wx.Pure.C17", "Wx.Pure.C17b"],
-    theorems=["Wp.common_is_prefix", "Wp.common_is_longest", "Wp.common_none", "Wp.trunk_under", "Wp.strip_join", "Wp.sortDedup_spec", "Wp.bucket_mem",
+    theorems=["Wp.bucket_is_code", "Wp.common_is_prefix", "Wp.common_is_longest", "Wp.common_none", "Wp.trunk_under", "Wp.strip_join", "Wp.sortDedup_spec", "Wp.bucket_mem",
               "Wp.summarise_vars", "Wp.summarise_entries", "Wp.summarise_complete", "Wp.entry_faithful", "Wp.entry_no_common", "Wp.common_longest",
               "Wp.simpleFormat_eq", "Wp.simpleFormat_append", "Wp.eventLines_length"],
     bins=[("cli", ["wxsummary"])],
@@ -134,7 +143,7 @@ def c18_streams(ctx):
     def classify(c, obs):
         f = c.split("\t")
         return [("exec" if f[1] == "E" else "shell"), "wraps=" + obs.split("wraps=")[1]]
-    s = simple_stream("C18", "spawn", "lib", "wxspawn", [ctx["seed"], n, nspawn], ["pure"], classify=classify,
+    s = simple_stream("C18", "spawn", "lib", "wxspawn", ["generate", ctx["seed"], n, nspawn], ["pure"], classify=classify,
                       nontrivial=lambda c, obs: True)
     s.note = (f"random commands (strings assembled from the empty string, blanks, tabs, newlines, quotes, $HOME, *, back-ticks, ;, |, &&, \\, -c, --, multi-byte "
               f"UTF-8): program/arguments/wrappers of the real to_spawnable() vs the model; the first {nspawn} are really spawned through start_job with a spawn hook "
@@ -240,6 +249,7 @@ def c11_streams(ctx):
                       nontrivial=lambda c, obs: "true" in obs and "false" in obs, classify=classify)
     s.note = ("random GlobsetFilterer configurations (filters, ignores, whitelist, ignore files, extensions) x 6 events (0-3 paths, file/dir/unknown, inside and outside the "
               "origin): real check_event vs the abstract decision of Wx/Glob/C11.lean instantiated with the concrete matcher (checkEventC), i.e. the right-hand side of the documented rule")
+    model_is_spec(s, lambda c, obs, mo: f"check_event verdicts for the six events are `{obs}`, the documented rule gives `{mo}`")
     return [s, glob_base_stream("C11", ctx)]
 
 PLANS["C11"] = dict(
@@ -502,7 +512,7 @@ def job_plan(pid, modules, theorems, rule_extra, partial=""):
         # an oracle failure is reported under the property it belongs to; others are left to that property's own check
         s.oracle_failures = [f for f in s.oracle_failures if f[3].startswith(f"[{pid}]")]
         return [s]
-    return dict(modules=modules, theorems=theorems, bins=[("lib", ["wxjob"])], streams=streams,
+    return dict(translate=True, modules=modules + ["Wx.Job.Api"], theorems=theorems + ["Jm.api_generated", "Jm.jobApi_documented"], bins=[("lib", ["wxjob"])], streams=streams,
                 sources=["crates/supervisor/src/job/task.rs", "crates/supervisor/src/job/priority.rs", "crates/supervisor/src/job/state.rs", "crates/supervisor/src/job/job.rs",
                          "crates/supervisor/src/job/messages.rs", "crates/supervisor/src/flag.rs"],
                 rule="a case is one script (behaviour list + operation list); non-trivial = at least one child is spawned; distinct by (script body, implementation trace). " + rule_extra,
